@@ -169,6 +169,19 @@ func lastLines(s string, n int) string {
 	return strings.Join(ls, " | ")
 }
 
+// copySupport copies the generator-free support packages next to a kept package.
+func (sc *scratchCtx) copySupport(dst string) {
+	for _, p := range sc.progs {
+		if !p.NoGombok {
+			continue
+		}
+		os.MkdirAll(filepath.Join(dst, p.Pkg), 0o755)
+		for n, b := range p.Files {
+			os.WriteFile(filepath.Join(dst, p.Pkg, n), b, 0o644)
+		}
+	}
+}
+
 // keep copies a scratch package (with module files) to the replay area and returns that directory.
 func (sc *scratchCtx) keep(id, pkg, why string) string {
 	dst := filepath.Join(verifDir, "replays", id, "scratch-"+pkg+"-"+why)
@@ -179,6 +192,7 @@ func (sc *scratchCtx) keep(id, pkg, why string) string {
 		b, _ := os.ReadFile(f)
 		os.WriteFile(filepath.Join(dst, pkg, filepath.Base(f)), b, 0o644)
 	}
+	sc.copySupport(dst)
 	os.WriteFile(filepath.Join(dst, "scratch.json"), []byte(fmt.Sprintf(`{"pkg": %q, "why": %q}`, pkg, why)), 0o644)
 	return dst
 }
@@ -200,6 +214,7 @@ func (sc *scratchCtx) replay(id, tier string, c *gosym.Cex, h *gosym.Harness) (s
 	os.WriteFile(filepath.Join(dst, "vector.json"), b, 0o644)
 	test := fmt.Sprintf("package %s\n\nimport (\n\t\"testing\"\n\n\t\"scratchmod/zzverif\"\n)\n\nfunc TestZZReplay(t *testing.T) {\n\tif out := zzverif.RunReplay(%q, %s); out != \"ok\" {\n\t\tt.Fatalf(\"replay outcome: %%s\", out)\n\t}\n}\n", h.PkgName, c.Harness, c.Harness)
 	os.WriteFile(filepath.Join(dst, pkg, "zz_verif_replay_test.go"), []byte(test), 0o644)
+	sc.copySupport(dst)
 	os.WriteFile(filepath.Join(dst, "scratch.json"), []byte(fmt.Sprintf(`{"pkg": %q, "why": "counterexample"}`, pkg)), 0o644)
 	ok, det := runScratchReplay(dst)
 	return dst, ok, det
@@ -221,11 +236,18 @@ func runScratchReplay(dir string) (bool, string) {
 	if err := writeScratchModule(tmp); err != nil {
 		return false, err.Error()
 	}
-	os.MkdirAll(filepath.Join(tmp, meta.Pkg), 0o755)
-	files, _ := filepath.Glob(filepath.Join(dir, meta.Pkg, "*.go"))
-	for _, f := range files {
-		b, _ := os.ReadFile(f)
-		os.WriteFile(filepath.Join(tmp, meta.Pkg, filepath.Base(f)), b, 0o644)
+	// the kept package and every support package stored next to it
+	subs, _ := os.ReadDir(dir)
+	for _, d := range subs {
+		if !d.IsDir() {
+			continue
+		}
+		os.MkdirAll(filepath.Join(tmp, d.Name()), 0o755)
+		files, _ := filepath.Glob(filepath.Join(dir, d.Name(), "*.go"))
+		for _, f := range files {
+			b, _ := os.ReadFile(f)
+			os.WriteFile(filepath.Join(tmp, d.Name(), filepath.Base(f)), b, 0o644)
+		}
 	}
 	switch meta.Why {
 	case "does-not-compile", "api-missing", "gombok-failed":
@@ -263,6 +285,10 @@ func runScratchReplay(dir string) (bool, string) {
 		got = strings.TrimSpace(m[1])
 	}
 	switch vf.Expect["kind"] {
+	case "witness":
+		if got == "ok" {
+			return true, "native run passes too"
+		}
 	case "assert":
 		if got == "assert:"+vf.Expect["label"] {
 			return true, got
